@@ -44,16 +44,44 @@ def check_repeat(ctx):
     def validation_only(guard) -> bool:
         """the return is reached exactly when no argument check raised"""
         return all(any(veq(g, p_not(rg)) for rg in raise_guards) for g in guard)
-    ctx.check(len(rets) == 1 and validation_only(rets[0].guard), 'C12.2', 'repeat has a single unconditional return (no alternative construction for special inputs)',
+    # an arange whose step is computed from the data has a rounding-dependent number of elements (r or r + 1 offsets): the extent clause needs exact counts
+    for e in ev.events:
+        if e.kind == 'lib' and e.data.get('name') == 'numpy.arange':
+            stp = e.data['kw'].get('step', e.data['pos'][2] if len(e.data['pos']) > 2 else None)
+            if isinstance(stp, Num) and stp.length is None and any(sym.ATOMS.head(a_) == 'el' for a_ in sym.all_atoms(stp.r)):
+                ctx.fail('C12.1', 'the number of copies / offsets is an exact count', f"numpy.arange at {e.loc()} steps by a value computed from the data "
+                                  f"({sym.show(stp.r)[:100]}): with a floating-point step the number of elements depends on rounding (it can be repeats + 1)",
+                         e.loc(), fi.qualname, 'arange-step')
+    single = len(rets) == 1 and validation_only(rets[0].guard)
+    if not single and len(rets) > 1:
+        # a separate return for particular repeat counts (`if repeats < 2: return x, y`): whether that special case agrees with the general construction is
+        # not compared here
+        def on_count_only(g):
+            return not any(isinstance(t, Num) and t.length is not None for t in walk_vals(g)) and any(
+                isinstance(t, Num) and t.length is None and t.r == r.r for t in walk_vals(g))
+        special = [e for e in rets if e.guard and all(on_count_only(g) or any(veq(g, p_not(rg)) for rg in raise_guards) for g in e.guard)]
+        if len(special) == len(rets):
+            ctx.unknown('C12.2', 'repeat has a single unconditional return (no alternative construction for special inputs)',
+                        f"{len(rets)} returns selected by the repeat count alone: {[[str(g)[:60] for g in e.guard] for e in rets]}", fi.loc(), fi.qualname, 'single-return')
+            return
+    ctx.check(single, 'C12.2', 'repeat has a single unconditional return (no alternative construction for special inputs)',
               f"{len(rets)} returns; guards {[[str(g)[:80] for g in e.guard] for e in rets]}", fi.loc(), fi.qualname, 'single-return')
     ok = isinstance(res, Tup) and len(res.items) == 2
     ctx.check(ok, 'C12.1', 'repeat returns a pair', show(res, 200), fi.loc(), fi.qualname, 'pair')
     if not ok:
         return
     rx, ry = res.items
-    ctx.check(same(ry, ty), 'C12.1', 'y result is tile(y, repeats), untouched', show(arr_term(ry), 200), fi.loc(), fi.qualname, 'y-tile')
+    from .common import foreign_heads
+    fh_y = foreign_heads(ry, ty) if not same(ry, ty) else []
+    if fh_y:
+        ctx.unknown('C12.1', 'y result is tile(y, repeats), untouched', f"construction not recognised (uses {fh_y}): {show(arr_term(ry), 200)}", fi.loc(), fi.qualname, 'y-tile')
+    else:
+        ctx.check(same(ry, ty), 'C12.1', 'y result is tile(y, repeats), untouched', show(arr_term(ry), 200), fi.loc(), fi.qualname, 'y-tile')
     for nm, v in (('x', rx), ('y', ry)):
         ln = v.length if isinstance(v, Num) else (term_as_num(v, True).length if isinstance(v, Term) else None)
+        if ln is not None and not (ln == L * r.r) and any(sym.ATOMS.head(a_) == 'Len' for a_ in sym.all_atoms(ln)):
+            ctx.unknown('C12.1', f"{nm} result has repeats*len elements", f"the extent is not derivable: {sym.show(ln)[:160]}", fi.loc(), fi.qualname, f"extent:{nm}")
+            continue
         ctx.check(ln is not None and ln == L * r.r, 'C12.1', f"{nm} result has repeats*len elements", f"extent {sym.show(ln) if ln is not None else None}",
                   fi.loc(), fi.qualname, f"extent:{nm}")
     stores = [e for e in ev.events if e.kind == 'store']
@@ -72,6 +100,11 @@ def check_repeat(ctx):
             return
         ctx.check(got == want, 'C12.5', 'repeat (no in-place updates): element k of the result is x[k mod n] + (k div n)*((x[-1]-x[0]) + (x[-1]-x[-2]))',
                   f"code:     {sym.show(got)[:300]}\nexpected: {sym.show(want)[:300]}", fi.loc(), fi.qualname, 'closed-form-flat')
+        return
+    start_x = arr_term(strip_state(rx))
+    if not veq(start_x, arr_term(tx)) and foreign_heads(start_x, tx):
+        ctx.unknown('C12.1', 'x result starts as tile(x, repeats)', f"construction not recognised (uses {foreign_heads(start_x, tx)}): {show(start_x, 160)}",
+                    fi.loc(), fi.qualname, 'x-tile')
         return
     ctx.check(same(strip_state(rx), ty) is False and veq(arr_term(strip_state(rx)), arr_term(tx)), 'C12.1', 'x result starts as tile(x, repeats)',
               show(arr_term(strip_state(rx)), 200), fi.loc(), fi.qualname, 'x-tile')
